@@ -55,7 +55,11 @@ class C05(UdpCheck):
             "fault fired and at least one message was delivered; distinct = distinct event-order digest")
 
     def gen(self, rng, tier, i):
-        return gen_traffic(rng, i, tier, retries=(-1,), cb_p=0.3)
+        case = gen_traffic(rng, i, tier, retries=(-1,), cb_p=0.3)
+        if rng.random() < 0.2:
+            case["plan"].append({"op": "hgreet", "t": 0.0, "len": rng.choice([5, 300, 2500]), "retry": -1, "cb": False,
+                                 "api": rng.choice(["send", "send_guaranteed"]), "kind": 0})
+        return case
 
     def monitors(self, case):
         self.fx = FragExpiryProbe()
@@ -79,7 +83,9 @@ class C05(UdpCheck):
             need = collections.Counter()
             first = {}
             for rec in w.sends:
-                if not is_guaranteed(rec) or rec["ok"] is not True or rec["status"] != "CONNECTED":
+                # (a send issued from inside handler.connect counts even if the library silently ignored it: the client
+                # has completed the handshake at that point, so the guaranteed send must be accepted and delivered)
+                if not is_guaranteed(rec) or rec["ok"] is not True or (rec["status"] != "CONNECTED" and not rec.get("from_connect_handler")):
                     continue
                 if rec["who"] == cn.name:
                     key = ("S", rec["sig"])
